@@ -27,6 +27,11 @@ func genConc(seed uint64, n int, path string) {
 	for i := 0; i < n; i++ {
 		r := root.Fork()
 		out.Line("case", strconv.Itoa(i), "conc")
+		if i == 2 {
+			// OutputKeyCertToDir: the deferred file writer of GenerateSecret under concurrency
+			out.Line("outdir", "8", "500")
+			continue
+		}
 		if i < 2 {
 			// the central schedules of the quantifier: GenerateSecret || rotation tasks || bundle updates
 			out.Line("stress", []string{"16", "8"}[i], []string{"1000", "700"}[i], strconv.FormatUint(r.Next()>>40, 10))
